@@ -59,8 +59,9 @@ try:
     record["caught_by"] = caught_by
     dest = Path("/verif/seeded") / a.id
     dest.mkdir(parents=True, exist_ok=True)
-    shutil.copy(src / "patch.diff", dest / "patch.diff")
-    shutil.copy(src / "demo.py", dest / "demo.py")
+    if src.resolve() != dest.resolve():
+        shutil.copy(src / "patch.diff", dest / "patch.diff")
+        shutil.copy(src / "demo.py", dest / "demo.py")
     (dest / "meta.json").write_text(json.dumps(record, indent=1))
 finally:
     shutil.rmtree(tmp, ignore_errors=True)
